@@ -253,6 +253,25 @@ def _format_chained_binary(
                 if not operator_str.endswith(" "):
                     operator_str = operator_str.rstrip() + " "
                 rebuilt += f"{op_sep}{operator_str}{right_str}"
+        elif right_newline:
+            # The operand starts a new line (e.g. behind an end-of-line comment).
+            right_sep = "\n" * right_gap_lines
+            right_indent = (
+                indent
+                if _should_absorb_chainable_operand(operand_slot.expr)
+                else indent + 2
+            )
+            right_str = _rebuild_operand(
+                operand_slot.expr,
+                indent=right_indent,
+                inline=True,
+                extra_before=operand_slot.extra_before,
+                extra_after=operand_slot.extra_after,
+            )
+            right_str = _ensure_indent(right_str, right_indent)
+            if not operator_str.startswith("\n"):
+                operator_str = " " + operator_str.lstrip()
+            rebuilt += f"{operator_str}{right_sep}{right_str}"
         else:
             right_str = _rebuild_operand(
                 operand_slot.expr,
